@@ -9,6 +9,7 @@
    constructor functions; middleware lists are arbitrary lists. *)
 From Coq Require Import List ZArith Bool String Lia.
 From Shoot Require Import Model.RestRuntime Proofs.RestRuntimeProofs.
+From Shoot Require Import Model.Retry Model.RetryStack Model.ChainSem Proofs.RetryStackProofs Proofs.ChainSemProofs.
 Import ListNotations.
 
 (* ---- RestConf holds exactly the supplied options, later options win.
@@ -132,6 +133,43 @@ Theorem C19_newrest_generated_client : forall (F : fenv) (g t : nat)
            g_transport := nested_trace (last_of sel_logging false os) (uses os) |}.
 Proof. exact newrest_generated_client. Qed.
 Print Assumptions C19_newrest_generated_client.
+
+(* ---- the chain has a meaning, not only a shape (Model/ChainSem.v): BuildMiddleware's loop over ANY
+   carrier T of RoundTrippers composes the middlewares left to right, logging outside; the trace-level
+   chain above is this loop at T = list event *)
+Theorem C19_chain_semantic : forall (T : Type) (logmw : T -> T) (mws : list (T -> T)) (logging : bool) (base : T),
+  build_sem T logmw mws logging base =
+  if logging then logmw (compose_sem T mws base) else compose_sem T mws base.
+Proof. exact build_sem_compose. Qed.
+Print Assumptions C19_chain_semantic.
+
+Theorem C19_trace_chain_is_semantic_chain : forall (mws : list mw) (logging : bool) (base : rt),
+  build mws logging base = build_sem rt log_mw mws logging base.
+Proof. exact build_is_sem. Qed.
+Print Assumptions C19_trace_chain_is_semantic_chain.
+
+(* instantiated with the behavioural RoundTrippers of C20: the client NewRest builds from
+   Use(RetryMiddleware(n, d)), Use(RetryMiddleware(m, d)) [, EnableLogging(true)] sends through
+   log (retry n (retry m base)), and whatever the options, a chain of retries calls a base transport
+   that makes at most k wire calls per request at most (prod (n_i + 1)) * k times per request *)
+Theorem C19_retry_chain_two : forall (n m : Z) (logging : bool) (base : tr),
+  retry_chain [n; m] logging base =
+  if logging then log_tr (retry_tr n (retry_tr m base)) else retry_tr n (retry_tr m base).
+Proof. exact retry_chain_two. Qed.
+Print Assumptions C19_retry_chain_two.
+
+Theorem C19_retry_chain_budget : forall (ns : list Z) (logging : bool) (base : tr) (k : nat),
+  bounded base k -> bounded (retry_chain ns logging base) (budget ns * k).
+Proof. exact retry_chain_bounded. Qed.
+Print Assumptions C19_retry_chain_budget.
+
+Example C19_example_retry_chain :
+  retry_chain [1; 1]%Z true (wire (script_of
+     [RErr 1 None; RResp {| r_id := 2; r_status := 503 |}; RErr 3 (Some {| r_id := 3; r_status := 200 |});
+      RErr 4 (Some {| r_id := 4; r_status := 200 |})] (RErr 0 None))) 0%nat
+  = ([ECall 0; ESleep; ECall 1; ESleep; ECall 2; ESleep; ECall 3], (None, Some 4%nat), 4%nat)
+  /\ budget [1; 1]%Z = 4%nat.
+Proof. split; vm_compute; reflexivity. Qed.
 
 (* ---- non-vacuity *)
 Example C19_example_options :
